@@ -138,9 +138,14 @@ def r2_r3_handle_condition(ctx, sym):
     # R3
     bfn = mod.func('Feedback.__bool__')
     ctx.analysed_function(mod, bfn)
-    rets = [x for x in body_walk(bfn) if isinstance(x, ast.Return)]
-    ctx.check(len(rets) == 1 and norm(rets[0].value) == 'bool(self._met_condition)', 'R3', 'Feedback.__bool__', mod,
-              bfn, "__bool__ is not bool(self._met_condition)", "truth value differs from the recorded outcome")
+    from .. import symexec as _sx
+    for met in (True, False, 1, 0, 'yes', '', None, [0], []):
+        me_b = _sx.self_obj(mod, 'Feedback', _met_condition=met)
+        got_b, raised_b = _sx.run(_sx.new_fd(sym, mod), bfn, [], bound_self=me_b, what='Feedback.__bool__')
+        ctx.check(raised_b is None and got_b is bool(met), 'R3', 'Feedback.__bool__[%r]' % (met,), mod, bfn,
+                  "a feedback whose recorded outcome is %r has truth value %r%s; expected %r" % (
+                      met, got_b, '' if raised_b is None else ' (raises %s)' % raised_b.kind, bool(met)),
+                  "truth value differs from the recorded outcome")
     n = 0
     for m in ctx.repo.modules.values():
         for node in ast.walk(m.tree):
